@@ -450,6 +450,29 @@ impl<'a, C: MlsConfig> Hist<'a, C> {
                         }
                         None => continue,
                     }
+                } else if roll >= 940 && active.len() + pending_adds.len() < self.prof.max_members {
+                    // a new member proposes itself: an external Add proposal (sender new_member_proposal) built from the public
+                    // GroupInfo and tree, delivered to every member like any by-reference proposal
+                    let Some(o) = self.outsiders().into_iter().next().or_else(|| if self.w.members.len() < self.prof.max_members + 4 { Some(self.new_member()) } else { None }) else { continue };
+                    let gi = self.w.group(p).group_info_message_allowing_ext_commit(true);
+                    let Ok(gi) = gi else { continue };
+                    let tree = self.w.group(p).export_tree().to_bytes().unwrap_or_default();
+                    let oname = self.w.members[o].setup.name.clone();
+                    let r = self.w.members[o].client.external_add_proposal(&gi, Some(tree_of(&tree)), vec![], Default::default(), Default::default(), None);
+                    match r {
+                        Ok(m) => {
+                            let note = format!("add {oname} (external, by the new member itself)");
+                            self.w.log(format!("propose {oname} {note} -> ok"));
+                            pending_adds.push((o, m.clone()));
+                            self.kps.push((o, m.clone())); // not available for another Add of this round
+                            let mi = self.w.push_msg("proposal", &oname, epoch, m, &note);
+                            round_props.push(mi);
+                            self.tap_broadcast(mi);
+                            self.rep.cover.insert("external-add-proposal".into());
+                        }
+                        Err(e) => self.w.log(format!("propose {oname} external add -> err:{}", err_class(&e))),
+                    }
+                    continue;
                 } else if roll < self.prof.p_add + self.prof.p_update && !updaters.contains(&p) && p != c_pre {
                     note = "update".into();
                     updaters.push(p);
